@@ -72,11 +72,50 @@ def r2(cx):
     oks = [x for x, k in exits(b) if k in ("ok", "tail")]
     for dname, comp, pats in COMPONENTS:
         cs = [c for c in b.calls if c.bb in b.live and c.bb in b.reachable_after([rs[0].bb]) and f.call_may_reach(c, set(pats))]
-        ok = bool(cs) and all(b.must_pass(rs[0].bb, [c.bb for c in cs], exits=[x])[0] for x in oks)
+        through = [c.bb for c in cs]
+        if dname == "vlog_dir":
+            # a store without a value log has nothing to re-initialise: the `None` arm of the test on `CoreInner.vlog` counts
+            for blk in sorted(b.live):
+                t = b.blocks[blk]["t"]
+                if t[0] == "switch" and t[1][0] in ("c", "m"):
+                    o = origin_of_operand(b, t[1], through_calls="all")
+                    if "vlog" in o.field_names() and "discr" in o.ops:
+                        listed = {v for v, _ in t[2]}
+                        for v, tgt in t[2]:
+                            if v == "0":
+                                through.append(tgt)
+                        if "0" not in listed and "1" in listed:
+                            through.append(t[3])  # `if let Some(..)`: the otherwise arm is None
+        ok = bool(cs) and all(b.must_pass(rs[0].bb, through, exits=[x])[0] for x in oks)
         cx.check(ok, "after restoring %s: %s is re-initialised (%s)" % (dname, comp.split(" (")[0], ", ".join(sorted({c.primary.split("::")[-1] for c in cs}))),
                  "stale-after-restore|%s" % comp.split(" (")[0], rs[0].where(),
                  "restore rewinds %s but never re-initialises the %s: reads after the restore can follow identifiers/handles of the discarded timeline, and "
                  "new writes collide with them" % (dname, comp))
+    # a value log that is re-read IN PLACE (not constructed afresh) must first forget everything of the discarded timeline:
+    # prefill only adds what is on disk now; a stale cached handle keeps serving the unlinked file of a re-issued id
+    for vb in f.scan_bodies():
+        if (vb.self_ty or "").split("<")[0].split("::")[-1] != "VLog" or vb.kind != "method" or vb.name in ("new", "prefill_file_handles"):
+            continue
+        if not any(c.bb in vb.live and c.primary.split("::")[-1] == "prefill_file_handles" for c in vb.calls):
+            continue
+        if not f.may_reach(b.id, "VLog::%s" % vb.name):
+            continue
+        cleared = set()
+        for c in vb.calls:
+            if c.bb in vb.live and c.primary.split("::")[-1] == "clear" and c.args:
+                cleared |= origin_of_operand(vb, c.args[0], through_calls="all").field_names()
+        _, W = self_field_sites(f, vb, "may")
+        stores = set()
+        for c in vb.calls:
+            if c.bb in vb.live and c.primary.endswith("::store") and c.args:
+                stores |= origin_of_operand(vb, c.args[0], through_calls="all").field_names()
+        need = {"file_handles", "files_map"}
+        cx.check(need <= cleared and "next_file_id" in stores and ("writer" in W or "writer" in cleared or any(
+            "writer" in origin_of_operand(vb, ["c", lhs], through_calls="all").field_names() for i, j, lhs, rv, line in vb.assigns() if len(lhs) > 1)),
+                 "`VLog::%s` drops the handles, the file table, the writer and the id counter before it reads the directory again" % vb.name,
+                 "vlog-reload-keeps-stale-state|%s" % vb.name, vb.where(),
+                 "`VLog::%s` re-reads the value log directory without first dropping %s: handles / entries of the discarded files survive the restore and are used again when "
+                 "their file id is re-issued" % (vb.name, sorted((need - cleared) | ({"next_file_id"} - stores))))
     # the WAL is reopened / replayed at the RESTORED manifest's log_number: it is read after the reload was installed
     ln = sites(cx, b, "LevelManifest::new")
     installs = []
